@@ -30,6 +30,10 @@ type c03FaultOp struct {
 	deletes []string
 	// touches: the keys the request is addressed to (everything else must stay as it was)
 	touches []string
+	// method: "HEAD" for requests whose response has no body (C09's response judge)
+	method string
+	// refused: without a fault the request is answered with an error (a read of an absent key, say)
+	refused bool
 }
 
 var c03FaultPreload = []string{"a", "d/x", "d/y", "e/f/g", "top/only"}
@@ -236,9 +240,13 @@ func runC03Faults(r *rep.Reporter) {
 // faultCases: for every backend kind and operation, a dry run tells which classes of file-system
 // call the request makes and how often; every (class, n) below the caps becomes a case.
 func faultCases(r *rep.Reporter, prop string, kinds []string) []c03FaultCase {
+	return faultCasesOf(r, prop, kinds, c03FaultOps())
+}
+
+func faultCasesOf(r *rep.Reporter, prop string, kinds []string, ops []c03FaultOp) []c03FaultCase {
 	var cases []c03FaultCase
 	for _, kind := range kinds {
-		for _, op := range c03FaultOps() {
+		for _, op := range ops {
 			// a dry run with a plan that matches nothing: which classes of call does this request make, how often?
 			dry := &drv.FaultPlan{Class: "none"}
 			s, b, err := c03FaultSetup(kind, dry)
@@ -255,7 +263,7 @@ func faultCases(r *rep.Reporter, prop string, kinds []string) []c03FaultCase {
 			dry.Disarm()
 			seen := dry.Seen()
 			s.Close()
-			if resp.Status < 200 || resp.Status > 299 {
+			if (resp.Status < 200 || resp.Status > 299) && !op.refused {
 				r.Violation(sig(prop, backendClass(kind), "setup-failed", "faults"), fmt.Sprintf("%s %s without any fault answers %s", kind, op.name, resp), nil)
 				continue
 			}
